@@ -23,6 +23,9 @@ from symx.values import SFloat, fpval
 OBS = ('kind', 'ret', 'exc', 'cause', 'status', 'iters', 'n_eval', 'pre_calls', 'post_calls', 'status_all', 'iters_all')
 
 
+MAX_CANDIDATES = 3  # IEEE confirmations + replays per configuration (further mismatching paths are only counted)
+
+
 def _expected_labels(events) -> list:
     lab = ['start']
     for k, it in events:
@@ -143,6 +146,8 @@ def explore_trace_config(cfg: dict) -> dict:
             res['nontrivial_paths'] += 1
         if r['bad']:
             res['mismatch_paths'] += 1
+            if len(res['candidates']) + res['spurious_under_uf'] >= MAX_CANDIDATES:
+                continue
             inputs = lf._ieee_witness(ctx, path, cfg, [])
             if inputs is None:
                 res['spurious_under_uf'] += 1
